@@ -171,6 +171,9 @@ def save_replay(prop, src, tag):
 def finish(res, spec):
     """Apply floors, match known findings, write evidence, print verdict lines; return exit code."""
     known = load_known()
+    if "requests_monitored_in_clean_state" in res.stats or "requests_monitored_after_known_defect" in res.stats:
+        spec = dict(spec)
+        spec["floors"] = dict(spec.get("floors", {}), requests_monitored_in_clean_state=5000)
     new, kf = [], {}
     for v in res.viol:
         k = match_known(known, v)
@@ -366,6 +369,175 @@ RM_ASSUMPTIONS = [
     "state is inspected only between requests",
 ]
 
+# ---------------------------------------------------------------- lib engine (direct API drivers)
+
+LIB_ASSUMPTIONS = [
+    "drivers call the real package APIs built from /repo's working tree; oracles are written from the property statement, the documentation and API comments, never from the implementation",
+    "cases are a function of (VERIF_SEED, shard, tier) only",
+]
+
+LIB_SPECS = {
+    "C08": dict(shards=16, n=dict(quick=5, thorough=40), tmpfs=True,
+                floors={"machines": 40, "calls_alloc": 50000, "calls_release": 20000, "hybrid_machines": 3, "error_expected_and_got": 1000},
+                rule="N synthetic machines per shard (<=64 CPUs, hybrid/L2-cluster/offline/cpufreq variety), <=3000 checked AllocateCpus/ReleaseCpus calls each over biased subsets S of the online CPUs, counts 0..|S|+1, 5 priorities x 17 flag masks; thorough: machines with <=10 online CPUs are enumerated completely; non-trivial = call with 0<n<|S|, distinct by (machine shape, |S|, n, priority, flags)"),
+    "C16": dict(shards=16, n=dict(quick=150, thorough=1500), tmpfs=True,
+                floors={"machines": 500, "setups_accepted": 1000, "pools_checked": 4000, "machines_pmem": 50, "machines_hbm": 30, "machines_memless": 30, "machines_offline": 30, "machines_isolated": 50, "machines_hybrid": 30, "machines_multi_die": 50, "special_nodes_attached": 500},
+                rule="catalogue + N random machines per shard written as sysfs trees; every accessor of the discovered sysfs.System compared with the generating model; 3 (quick) / 5 (thorough) topology-aware configurations per machine set up through the real backend, pool tree compared with the shape computed from model + configuration; distinct = machine shape x config class for machines with >=2 pools"),
+    "C19": dict(shards=16, n=dict(quick=8000, thorough=75000),
+                floors={"reference_compared": 50000, "joint_keys": 20000, "weights_compared": 2000, "balloon_placements": 1500, "balloon_order_decided": 500},
+                rule="N expression cases per shard on real cache pods/containers (duality, doc-derived reference evaluator, joint keys, validated-never-panics), N/20 affinity-weight cases, N/200 balloon-type selection cases through the real balloons policy; distinct by case hash"),
+    "C20": dict(shards=16, n=dict(quick=8000, thorough=100000),
+                floors={"cpu_values_checked": 256001, "capacities_checked": 100000, "adj_roundtrips": 10000000, "cache_containers_checked": 1000},
+                rule="CPU part exhaustive in every shard (all m in 0..256000, all shares 2..262144, all quotas); memory part: fixed list of 4511 capacities + N PRNG-drawn capacities per shard in [1MiB,64TiB], table build under recover and all Burstable adjustments round-tripped; containers of the three QoS classes through the cache"),
+    "C18lib": dict(prop="C18", shards=16, n=dict(quick=800, thorough=8000),
+                floors={"maps_typed": 3000},
+                rule="N annotation maps per shard on real cache pods (names that are prefixes/suffixes of each other, look-alike keys), 4 insertion orders x 16 repetitions per query, doc-derived resolver; typed helpers of cache and topology-aware policy"),
+}
+
+
+def lib_jobs(key, tier, seed, libbin, rundir, tag=""):
+    spec = LIB_SPECS[key]
+    prop = spec.get("prop", key)
+    jobs = []
+    for sh in range(spec["shards"]):
+        work = os.path.join(rundir, "%s%03d" % (tag, sh))
+        wdir = work
+        if spec.get("tmpfs") and os.path.isdir("/dev/shm"):
+            wdir = "/dev/shm/verif-%s-%d-%d" % (key, os.getpid(), sh)
+        out = os.path.join(work, "out.json")
+        cmd = [libbin, "--prop", prop, "--seed", str(seed), "--shard", str(sh), "--shards", str(spec["shards"]),
+               "--n", str(spec["n"][tier]), "--tier", tier, "--out", out, "--work", wdir]
+        jobs.append(dict(cmd=cmd, work=work, out=out, name="%s/%d" % (key, sh), scratch=wdir, timeout=1800 if tier == "quick" else 10800))
+    return jobs
+
+
+def collect_out(res, jobs, prop):
+    """Merge libdrv.Out-shaped results."""
+    for j in jobs:
+        if j.get("scratch") and j["scratch"] != j["work"]:
+            # witnesses live in the scratch dir: move them next to the result before removing it
+            if os.path.isdir(j["scratch"]):
+                for w in glob.glob(os.path.join(j["scratch"], "witness-*.json")) + glob.glob(os.path.join(j["scratch"], "observation-*.json")):
+                    try:
+                        shutil.copy(w, j["work"])
+                    except Exception:
+                        pass
+                shutil.rmtree(j["scratch"], ignore_errors=True)
+        if not os.path.exists(j["out"]):
+            res.inconclusive.append("job %s produced no result (rc=%s); see %s" % (j["name"], j.get("rc"), j["work"]))
+            continue
+        try:
+            o = json.load(open(j["out"]))
+        except Exception as e:
+            res.inconclusive.append("job %s: unreadable result: %s" % (j["name"], e))
+            continue
+        if not o.get("done"):
+            res.inconclusive.append("job %s did not finish" % j["name"])
+        res.add_stats(o.get("stats") or {})
+        res.evaluations += o.get("evaluations", 0)
+        for h in o.get("seen") or []:
+            res.seen.add(h)
+        res.extra["distinct_sum_of_shards"] = res.extra.get("distinct_sum_of_shards", 0) + o.get("distinct", 0)
+        if o.get("exhaustive"):
+            res.extra["exhaustive"] = True
+        for v in o.get("violations") or []:
+            if v.get("prop") != prop:
+                continue
+            w = v.get("witness", "")
+            if w and not os.path.exists(w):
+                w2 = os.path.join(j["work"], os.path.basename(w))
+                w = w2 if os.path.exists(w2) else ""
+            v = dict(v)
+            v.pop("case", None)
+            v["replay"] = save_replay(prop, w, "s%s" % res.seed) if w else ""
+            res.viol.append(v)
+        for smp in o.get("samples") or []:
+            if len(res.samples) < 3:
+                res.samples.append(smp)
+    res.extra["jobs"] = res.extra.get("jobs", 0) + len(jobs)
+
+
+def check_lib(prop, tier, seed):
+    spec = LIB_SPECS[prop]
+    res = Result(prop, tier, seed)
+    libbin = build("lib")
+    rundir = os.path.join(BUILD, "run", "%s-%d" % (prop, os.getpid()))
+    shutil.rmtree(rundir, ignore_errors=True)
+    jobs = run_jobs(lib_jobs(prop, tier, seed, libbin, rundir))
+    collect_out(res, jobs, prop)
+    if not res.seen:
+        res.extra["distinct_nontrivial"] = res.extra.get("distinct_sum_of_shards", 0)
+    rc = finish(res, dict(spec, level="exploration", assumptions=LIB_ASSUMPTIONS))
+    if rc == 0:
+        shutil.rmtree(rundir, ignore_errors=True)
+    return rc
+
+
+def replay_lib(prop, path):
+    libbin = build("lib")
+    p = subprocess.run([libbin, "--prop", prop, "--replay", path], stderr=subprocess.DEVNULL)
+    return p.returncode
+
+
+# ---------------------------------------------------------------- agent engine (C17)
+
+def build_gotest(pkg, outname):
+    """Build an in-package test driver (overlay _test.go files) of a /repo package."""
+    os.makedirs(BIN, exist_ok=True)
+    out = os.path.join(BIN, outname)
+    lock = open(os.path.join(BUILD, "build.lock"), "w") if os.path.isdir(BUILD) else None
+    if lock is None:
+        os.makedirs(BUILD, exist_ok=True)
+        lock = open(os.path.join(BUILD, "build.lock"), "w")
+    fcntl.flock(lock, fcntl.LOCK_EX)
+    try:
+        ov = write_overlay()
+        cmd = ["go", "test", "-c", "-tags", "verif", "-vet=off", "-overlay", ov, "-o", out, pkg]
+        p = subprocess.run(cmd, cwd=REPO, env=GOENV, stdout=subprocess.PIPE, stderr=subprocess.STDOUT, text=True)
+        if p.returncode != 0:
+            raise Inconclusive("build of %s failed:\n%s" % (outname, p.stdout[-4000:]))
+    finally:
+        fcntl.flock(lock, fcntl.LOCK_UN)
+        lock.close()
+    return out
+
+
+C17_SPEC = dict(
+    floors={"notifies": 100000, "redeliveries_suppressed": 10000, "invalid_suppressed": 10000, "fallbacks": 1000, "rejects": 10000},
+    rule="EXHAUSTIVE enumeration of all event sequences of length L (quick 5, thorough 6) over a 15-event alphabet (node/group add v1, add v2, re-deliver, invalid, rejected-by-callback, delete, recreated-UID, generation-0 file object) on a fresh Agent each, driving updateNodeConfig/updateGroupConfig exactly as Agent.Start's select loop does; trace invariants + doc-derived reference state machine after every event; plus fatal-callback sequences and the topology-aware config type at depth min(L,4); distinct = distinct (reference state, last delivered, event) transitions",
+    assumptions=["the watch plumbing (reconnects, node-label driven group switches) is not driven: events are fed to the two update functions directly, in one goroutine, as the select loop does"],
+)
+
+
+def check_c17(prop, tier, seed):
+    res = Result(prop, tier, seed)
+    tb = build_gotest("./pkg/agent/", "agent.test")
+    rundir = os.path.join(BUILD, "run", "%s-%d" % (prop, os.getpid()))
+    shutil.rmtree(rundir, ignore_errors=True)
+    depth, shards = (5, 8) if tier == "quick" else (6, 16)
+    jobs = []
+    for sh in range(shards):
+        work = os.path.join(rundir, "a%02d" % sh)
+        out = os.path.join(work, "out.json")
+        env = {"VERIF_SEED": str(seed), "VERIF_DEPTH": str(depth), "VERIF_SHARD": str(sh), "VERIF_SHARDS": str(shards),
+               "VERIF_OUT": out, "VERIF_WORK": work, "GOMAXPROCS": "2"}
+        jobs.append(dict(cmd=[tb, "-test.run", "^TestVerifAgent$"], env=env, work=work, out=out, name="agent/%d" % sh, cwd=work, timeout=3600))
+    jobs = run_jobs(jobs)
+    collect_out(res, jobs, prop)
+    res.extra["exhaustive"] = True
+    res.extra["depth"] = depth
+    rc = finish(res, dict(C17_SPEC, level="exploration"))
+    if rc == 0:
+        shutil.rmtree(rundir, ignore_errors=True)
+    return rc
+
+
+def replay_c17(prop, path):
+    tb = build_gotest("./pkg/agent/", "agent.test")
+    p = subprocess.run([tb, "-test.run", "^TestVerifAgent$"], env=dict(os.environ, VERIF_REPLAY=path), stderr=subprocess.DEVNULL)
+    return p.returncode
+
+
 # ---------------------------------------------------------------- dispatch
 
 CHECKS = {}
@@ -373,6 +545,9 @@ for _p in RM_SPECS:
     CHECKS[_p] = check_rm
 for _p in MODE_SPECS:
     CHECKS[_p] = check_modes
+for _p in ("C08", "C16", "C19", "C20"):
+    CHECKS[_p] = check_lib
+CHECKS["C17"] = check_c17
 
 
 def replay(prop, path):
@@ -391,6 +566,8 @@ def main(argv):
     if a.prop == "setup":
         try:
             build("rm")
+            build("lib")
+            build_gotest("./pkg/agent/", "agent.test")
         except Inconclusive as e:
             log("setup failed: %s" % e)
             return 2
@@ -410,4 +587,4 @@ def main(argv):
         return 2
 
 
-REPLAYS = {}
+REPLAYS = {"C08": replay_lib, "C16": replay_lib, "C19": replay_lib, "C20": replay_lib, "C17": replay_c17}
